@@ -11,7 +11,7 @@ ASSUMPTIONS = [
     "logging disabled; format() of symbolic non-str values is stubbed (DESIGN R3, R8)",
 ]
 STUBS = ["VClock/fake_fail_after", "ScriptedReadStream", "RecordingWriteStream", "uuid4 counter", "format stub"]
-OUTSIDE = ["more than 3 incoming messages (quick: 2)", "request ids longer than 3 characters in the symbolic-id family", "progress callbacks that take time"]
+OUTSIDE = ["more than 3 incoming messages with symbolic arrival times (quick: 2); longer streams only as n identical distractors, n from the source-constant cases <= 1100", "request ids longer than 3 characters in the symbolic-id family (longer ids: lengths from the source-constant cases <= 70000, fill concrete)", "progress callbacks that take time"]
 
 KINDS = [0, 1, 2, 3, 4, 7]  # result, error, same-id request, other-id response, notification, batch
 GAP_MAX, T_MAX = 256, 192
@@ -75,6 +75,24 @@ def obligations(tier, ctx):
         obs.append(Ob(name="helper_" + nme, params=[("g0", "int"), ("g1", "int"), ("T", "int")],
                       pre=["0 <= g0 <= 100", "0 <= g1 <= 100", "1 <= T <= 150"],
                       call=f"H.helper({nme!r}, [g0, g1], T, -32603)", backend="P", timeout=180, family="helper"))
+    # size dimension: lengths and counts straddling every integer constant of the source tree
+    from symcheck import consts
+    clim = 410 if tier == "quick" else 1100
+    nid, ncnt = len(consts.size_cases(70000)), len(consts.size_cases(clim))
+    for where in range(4):
+        for kt in ([(3, 0)] if tier == "quick" else [(3, 0), (3, 3, 1), (3,)]):
+            obs.append(Ob(name=f"idlong_{''.join(map(str, kt))}_w{where}", params=[("k", "int")], pre=[f"0 <= k < {nid}"],
+                          call=f"H.idlong({kt!r}, k, {where})", real=f"H.idlong_real({kt!r}, k, {where})", backend="P", timeout=400,
+                          family="size: ids of every length c-1, c, c+1 for the integer constants c of the source (two ids sharing all but one position)"))
+    for kt in ([(3, 0)] if tier == "quick" else [(3, 0), (3, 3, 1), (3,)]):
+        obs.append(Ob(name=f"idnear_{''.join(map(str, kt))}", params=[("i", "int"), ("swap", "bool")], pre=["0 <= i <= 11"], call=f"H.idnear({kt!r}, i, swap)",
+                      real=f"H.idnear_real({kt!r}, i, swap)", backend="P", timeout=300, family="near-equal id pairs (neighbours beyond 2^53 / 2^63 / double range, long strings, Unicode forms, str vs int)"))
+    for fill in ((1,) if tier == "quick" else (0, 1, 2)):
+        obs.append(Ob(name=f"paramlong_f{fill}", params=[("k", "int")], pre=[f"0 <= k < {nid}"], call=f"H.paramlong(k, {fill})", backend="P", timeout=400,
+                      family="size: params leaf of every length c-1, c, c+1"))
+    for kind in ((4,) if tier == "quick" else (4, 3, 2, 5)):
+        obs.append(Ob(name=f"many_{kind}", params=[("k", "int")], pre=[f"0 <= k < {ncnt}"], call=f"H.many({kind}, k, 2000, {clim})", backend="P", timeout=900,
+                      family="count: c-1, c, c+1 distractors before the answer"))
     from symcheck.runner import mirror
     obs += mirror(obs, r"^(sched_0|sched_2|sched_20|sched_31|cb_2|cb_50|autoid_0)$", "F", limit=(3 if tier == "quick" else None))
     return obs
